@@ -515,19 +515,19 @@ pub fn last_char_start(src: &str, r: &Region) -> usize {
 }
 
 /// The list item text (colour-free form) for a region, from C16's description.
-pub fn ref_render_item(src: &str, r: &Region) -> (usize, usize, String) {
+pub fn ref_render_item(src: &str, r: &Region, width: usize) -> (usize, usize, String) {
     let lc = last_char_start(src, r);
     let first = line_of(src, r.s);
     let last = line_of(src, lc);
     let ls = src[..r.s].rfind('\n').map(|p| p + 1).unwrap_or(0);
     let le = src[lc..].find('\n').map(|p| p + lc).unwrap_or(src.len());
     let mut out = String::new();
-    out.push_str(&" ".repeat(9 + display_col(src, r.s)));
+    out.push_str(&" ".repeat(width + display_col(src, r.s)));
     out.push_str("_start\n");
     for (k, line) in src[ls..le].split('\n').enumerate() {
-        out.push_str(&format!("{:7} |{}\n", first + k, line.replace('\t', "    ")));
+        out.push_str(&format!("{:>w$} |{}\n", first + k, line.replace('\t', "    "), w = width.saturating_sub(2)));
     }
-    out.push_str(&" ".repeat(9 + display_col(src, lc)));
+    out.push_str(&" ".repeat(width + display_col(src, lc)));
     out.push_str("‾end");
     (first, last, out)
 }
